@@ -245,7 +245,7 @@ func solve(asserts []*Term, opts ScriptOpts, timeoutSec int) solveResult {
 
 // portfolio: real-valued query on z3 (and z3-new after a delay) plus a small-lattice integer query that can only
 // contribute "sat" (a replayable counterexample). First definitive answer wins.
-func portfolio(realScript, intSmall string, timeoutSec int) (solveResult, bool) {
+func portfolio(realScript, intSmall string, timeoutSec int, noRetry bool) (solveResult, bool) {
 	ctx, cancel := context.WithCancel(context.Background())
 	defer cancel()
 	type tagged struct {
@@ -273,12 +273,15 @@ func portfolio(realScript, intSmall string, timeoutSec int) (solveResult, bool) 
 	if solverBin == "z3-new" {
 		alt = "z3"
 	}
+	// the SMT core with incremental linearisation: far better than nlsat on near-propositional queries
+	launch(strings.Replace(realScript, "(check-sat)", "(check-sat-using smt)", 1), solverBin, false, 0)
 	if intSmall != "" {
 		launch(intSmall, solverBin, true, 0)
 	}
 	var last solveResult
 	last.status = "unknown"
 	var totalMs int64
+	realDone := 0
 	for i := 0; i < n; i++ {
 		t := <-ch
 		totalMs += t.r.ms
@@ -288,6 +291,10 @@ func portfolio(realScript, intSmall string, timeoutSec int) (solveResult, bool) 
 		}
 		if !t.isInt && t.r.status != "cancelled" {
 			last = t.r
+			realDone++
+			if noRetry || realDone < 2 {
+				continue
+			}
 			// primary gave up: try the alternative solver binary before giving up
 			r2 := runSolverCtx(ctx, realScript, timeoutSec, alt)
 			totalMs += r2.ms
